@@ -79,7 +79,11 @@ pub fn parse_duration(input: &str) -> Result<u64> {
         }
     };
 
-    Ok(value * multiplier)
+    value.checked_mul(multiplier).ok_or_else(|| {
+        SlocGuardError::Config(format!(
+            "Duration too large: '{input}'. The value in seconds must fit in 64 bits"
+        ))
+    })
 }
 
 #[cfg(test)]
